@@ -96,29 +96,63 @@ impl Parse for Value {
 			}
 		}
 
-		loop {
+		/// Drops completed values with an explicit work list, so that
+		/// giving up on a deeply nested document does not recurse.
+		fn drop_values(mut values: Vec<Value>) {
+			while let Some(value) = values.pop() {
+				match value {
+					Value::Array(a) => values.extend(a),
+					Value::Object(o) => values.extend(o.into_iter().map(|e| e.value)),
+					_ => (),
+				}
+			}
+		}
+
+		// Evaluates a fallible expression. On error, the container popped from
+		// the stack is pushed back so that it is dropped iteratively below.
+		macro_rules! try_or_restore {
+			($e:expr, $item:expr) => {
+				match $e {
+					Ok(r) => r,
+					Err(e) => {
+						stack.push($item);
+						break Err(e);
+					}
+				}
+			};
+		}
+
+		let result = loop {
 			match stack.pop() {
 				None => match Fragment::value_or_parse(
 					value.take(),
 					parser,
 					stack_context(&stack, context),
-				)? {
-					Meta(Fragment::Value(value), i) => {
-						parser.skip_whitespaces()?;
-						break match parser.next_char()? {
-							(p, Some(c)) => Err(Error::unexpected(p, Some(c))),
-							(_, None) => Ok(Meta(value, i)),
+				) {
+					Err(e) => break Err(e),
+					Ok(Meta(Fragment::Value(v), i)) => {
+						value = Some(Meta(v, i));
+						let end = parser
+							.skip_whitespaces()
+							.and_then(|()| parser.next_char());
+						break match end {
+							Ok((p, Some(c))) => Err(Error::unexpected(p, Some(c))),
+							Ok((_, None)) => Ok(value.take().unwrap()),
+							Err(e) => Err(e),
 						};
 					}
-					Meta(Fragment::BeginArray, i) => {
+					Ok(Meta(Fragment::BeginArray, i)) => {
 						stack.push(StackItem::ArrayItem(Meta(Array::new(), i)))
 					}
-					Meta(Fragment::BeginObject(key), i) => {
+					Ok(Meta(Fragment::BeginObject(key), i)) => {
 						stack.push(StackItem::ObjectEntry(Meta(Object::new(), i), key))
 					}
 				},
 				Some(StackItem::Array(Meta(array, i))) => {
-					match array::ContinueFragment::parse_in(parser, i)? {
+					match try_or_restore!(
+						array::ContinueFragment::parse_in(parser, i),
+						StackItem::Array(Meta(array, i))
+					) {
 						array::ContinueFragment::Item => {
 							stack.push(StackItem::ArrayItem(Meta(array, i)))
 						}
@@ -126,7 +160,10 @@ impl Parse for Value {
 					}
 				}
 				Some(StackItem::ArrayItem(Meta(mut array, i))) => {
-					match Fragment::value_or_parse(value.take(), parser, Context::Array)? {
+					match try_or_restore!(
+						Fragment::value_or_parse(value.take(), parser, Context::Array),
+						StackItem::ArrayItem(Meta(array, i))
+					) {
 						Meta(Fragment::Value(value), _) => {
 							array.push(value);
 							stack.push(StackItem::Array(Meta(array, i)));
@@ -142,7 +179,10 @@ impl Parse for Value {
 					}
 				}
 				Some(StackItem::Object(Meta(object, i))) => {
-					match object::ContinueFragment::parse_in(parser, i)? {
+					match try_or_restore!(
+						object::ContinueFragment::parse_in(parser, i),
+						StackItem::Object(Meta(object, i))
+					) {
 						object::ContinueFragment::Entry(key) => {
 							stack.push(StackItem::ObjectEntry(Meta(object, i), key))
 						}
@@ -152,7 +192,10 @@ impl Parse for Value {
 					}
 				}
 				Some(StackItem::ObjectEntry(Meta(mut object, i), Meta(key, e))) => {
-					match Fragment::value_or_parse(value.take(), parser, Context::ObjectValue)? {
+					match try_or_restore!(
+						Fragment::value_or_parse(value.take(), parser, Context::ObjectValue),
+						StackItem::Object(Meta(object, i))
+					) {
 						Meta(Fragment::Value(value), _) => {
 							parser.end_fragment(e);
 							object.push(key, value);
@@ -169,6 +212,23 @@ impl Parse for Value {
 					}
 				}
 			}
+		};
+
+		if result.is_err() {
+			let mut values: Vec<Value> = value.take().map(Meta::into_value).into_iter().collect();
+			for item in stack {
+				match item {
+					StackItem::Array(Meta(a, _)) | StackItem::ArrayItem(Meta(a, _)) => {
+						values.extend(a)
+					}
+					StackItem::Object(Meta(o, _)) | StackItem::ObjectEntry(Meta(o, _), _) => {
+						values.extend(o.into_iter().map(|e| e.value))
+					}
+				}
+			}
+			drop_values(values);
 		}
+
+		result
 	}
 }
